@@ -74,8 +74,12 @@ ZERO8 == <<48, 48, 48, 48, 48, 48, 48, 48>>
 SrcArgsOK(r, c) ==
     /\ c.refcode = r.ascii
     /\ Len(c.words) = 8
-    /\ \A n \in 1..8 : IF n + 1 <= r.wc THEN c.words[n] = Word8(r.words[n])
-                                        ELSE c.words[n] \in {ZERO8, Word8(r.words[n])}
+    /\ \A n \in 1..8 : n + 1 <= r.wc => c.words[n] = Word8(r.words[n])
+    \* beyond the valid word count: zeros (only valid words are words) or what is stored (words 2..9 literally) -
+    \* one reading or the other for the whole call, not a mixture
+    /\ LET beyond == {n \in 1..8 : n + 1 > r.wc}
+       IN  \/ \A n \in beyond : c.words[n] = ZERO8
+           \/ \A n \in beyond : c.words[n] = Word8(r.words[n])
 ExpectedSrcImports(r) ==
     IF r.creator = BMC THEN <<SrcModName(r.creator), OsrcTarget(r.ascii)>> ELSE <<SrcModName(r.creator)>>
 SrcFailing(r) ==
